@@ -59,3 +59,19 @@ Proof. exact ex_file_prints. Qed.
 Example C01_stmt_example_parses : parse_file ex_text = Some ex_file.
 Proof. exact ex_file_parses. Qed.
 Print Assumptions C01_stmt_example_wf.
+
+(* ------------------------------------------------------------------ level S, DEFAULT (multi-line) mode
+   ml_print_file ind bnl t = the default printer (Syntax/MiniPrinterML.v: transliteration with the
+   position logic, options Indent n and BinaryNextLine) run on the canonical positions canon_file t
+   (Syntax/MiniPos.v).  For ALL well-formed trees, every Indent n and both BinaryNextLine settings:
+   parsing the printed multi-line text gives the tree back.  Proof: machine = layout R_file
+   (MiniRenderML.v), R_file lexes to the newline-token list of the tree (MiniLexML.v), which parses to
+   the tree through the leading-newline path of p_stmts (MiniParseML.v).
+   PARTIAL: canonical positions only (arbitrary source layouts: code leg, byte-wise); same fragment
+   and same wf_file as the SingleLine theorem; no Minify, redirections, assignments, for/case. *)
+From Verif Require Import Syntax.MiniPos Syntax.MiniPrinterML Proofs.MiniRoundtripML.
+
+Theorem C01_stmt_roundtrip_default_partial : forall ind bnl t, wf_file t ->
+  parse_file (ml_print_file ind bnl t) = Some (norm_file t).
+Proof. exact stmt_roundtrip_default. Qed.
+Print Assumptions C01_stmt_roundtrip_default_partial.
